@@ -17,7 +17,7 @@ func init() {
 	Register(&Property{
 		ID: "C05", Level: "exploration",
 		Rule: "E1, two drivers. (i) requests: n in 2..4 (thorough 5) alternatives x m in {1,2} criteria x values {0,1,2} full product; options (per-criterion threshold shape out of 7, gain/cost, weights k, " +
-			"distillation function out of 5, extra not-considered alternative) within 2 deviations of the default; plus a three-criteria veto grid (n=2, values {0,1,2}^6, 4 threshold shapes per criterion full product x 4 weight vectors x 2 distillation functions). (ii) credibility matrices fed to the exported RankAscending/RankDescending: " +
+			"distillation function out of 5, extra not-considered alternative) within 2 deviations of the default; plus a three-criteria veto grid (n=2, values {0,1,2}^6, 4 threshold shapes per criterion full product x 6 weight vectors x 2 distillation functions). (ii) credibility matrices fed to the exported RankAscending/RankDescending: " +
 			"all 3x3 matrices with off-diagonal entries in {0,0.25,0.5,0.75,1} (thorough: all 4x4 over {0,0.5,0.75,1}) x 4 distillation functions. " +
 			"Oracle: independent set-based reference implementation of credibility + both distillations + the link rule. " +
 			"distinct_nontrivial = distinct (instance, index vector) with >=2 classes in some distillation.",
@@ -207,7 +207,7 @@ func eleEnumerate(s *Shard, prop string, fn func(c *Case, cfg eleCfg)) {
 // concordance strictly between 0 and 1 (the shape needed to tell "discordance above the concordance" from variants of it).
 func eleVetoGrid(s *Shard, prop string, fn func(c *Case, cfg eleCfg)) {
 	shapes := []thr{{}, {P: 0.5, V: 1.5}, {P: 0.5, V: 2.5}, {Q: 0.5, P: 1.5}}
-	ks := [][]float64{{1, 1, 1}, {1, 1, 2}, {2, 1, 1}, {1, 2, 1}}
+	ks := [][]float64{{1, 1, 1}, {1, 1, 2}, {2, 1, 1}, {1, 2, 1}, {2e6, 1, 1}, {1, 17, 3}} // the last two: a weight share below 1e-6; shares that land exactly on 1 - s(1) = 0.85
 	ns := []int{2}
 	if !quick(s) {
 		ns = []int{2, 3}
